@@ -746,11 +746,15 @@ class UnionUnmarshaller(AbstractUnmarshaller[UnionT], tp.Generic[UnionT]):
             ValueError: If `val` cannot be unmarshalled into any member type.
         """
         for routine in self.ordered_routines:
-            with contextlib.suppress(
-                ValueError, TypeError, SyntaxError, AttributeError
-            ):
+            # Whichever error a member uses to reject the input (`ValueError`,
+            #   `decimal.InvalidOperation`, `KeyError`, ...), try the next one.
+            try:
                 unmarshalled = routine(val)
                 return unmarshalled
+            except RecursionError:
+                raise
+            except Exception:  # noqa: S112
+                continue
 
         raise ValueError(f"{val!r} is not one of types {self.stack!r}")
 
